@@ -162,6 +162,8 @@ Definition dump_ok (c : graph_z * list dchunk_z) : bool :=
       && list_eqb2 dcross_eqb (x_imports x) dcross)
     (seq 0 (length chunks))
     && deps_coverb g
+    (* the dump is well formed in the sense of the totality theorem *)
+    && wf_graphb g
   end.
 Definition check_dump := mismatches dump_ok.
 
